@@ -32,6 +32,8 @@ func TestMain(m *testing.M) {
 	// the properties below want >= 200 cases; an explicit -rapid.checks still wins
 	if f := flag.Lookup("rapid.checks"); f != nil {
 		_ = flag.Set("rapid.checks", "250")
+		_ = flag.Set("rapid.nofailfile", "true") // the seed in the failure message reproduces
+		_ = flag.Set("rapid.shrinktime", "5s")
 	}
 	flag.Parse()
 	src := os.Getenv("XVERIF_JAVA_SRC")
@@ -443,6 +445,8 @@ func TestMutateExcluding(t *testing.T) {
 			}
 		})
 		// excluded subtrees are untouched unless a whole enclosing element was removed
+		sort.Strings(before)
+		sort.Strings(after)
 		if !strings.HasPrefix(label, "elem-remove") && strings.Join(before, "\x00") != strings.Join(after, "\x00") {
 			rt.Fatalf("%s edited an excluded subtree", label)
 		}
@@ -535,20 +539,23 @@ func TestVerify(t *testing.T) {
 		check(ki.name+"/tamper-signedinfo", bytes.Replace(signed, []byte("xmlenc#sha256\"/><DigestValue>"), []byte("xmlenc#sha256\"/><DigestValue> "), 1), certDER, false, "signature value")
 
 		// metamorphic use of the generator on a signed document: restyling keeps it valid,
-		// a mutation outside KeyInfo/SignatureValue breaks it
+		// a mutation outside the Signature element breaks it
 		d, err := ParseDoc(signed)
 		if err != nil {
 			t.Fatal(err)
 		}
 		rapid.Check(t, func(rt *rapid.T) {
 			st := GenStyle(rt)
+			st.TextComments = false // JDK limitation: base64 content split by a comment is misread
 			re := d.Serialize(st)
 			ok, why, err := jv.Verify(re, certDER)
 			if err != nil || !ok {
 				rt.Fatalf("restyled (%v) signed document does not verify: %v %q %v\n%s", st, ok, why, err, re)
 			}
 			m, label := d.MutateExcluding(rt, func(n *Node, uri string) bool {
-				return uri == DSigNamespace && (n.Local == "KeyInfo" || n.Local == "SignatureValue")
+				// the enveloped Signature element itself is not covered by its references
+				// (only its SignedInfo is signed; tampering with that is checked above)
+				return uri == DSigNamespace && n.Local == "Signature"
 			})
 			mb := m.Serialize(st)
 			ok, _, err = jv.Verify(mb, certDER)
@@ -560,10 +567,18 @@ func TestVerify(t *testing.T) {
 			}
 		})
 	}
-	// wrong certificate
-	other, _ := os.ReadFile("/repo/functest/testkeys/server.crt")
-	if blk, _ := pem.Decode(other); blk != nil {
-		check("wrong-cert", signTemplate(t, key, keyValue), blk.Bytes, false, "signature value")
+	// wrong certificate (another RSA key): the signature value fails, the references hold
+	other, _ := os.ReadFile("/repo/functest/testkeys/ralph.crt")
+	for rest := other; ; {
+		var blk *pem.Block
+		blk, rest = pem.Decode(rest)
+		if blk == nil {
+			break
+		}
+		if blk.Type == "CERTIFICATE" {
+			check("wrong-cert", signTemplate(t, key, keyValue), blk.Bytes, false, "signature value")
+			break
+		}
 	}
 	if _, _, err := jv.Verify([]byte("<a/>"), nil); err == nil {
 		t.Fatal("document without a signature accepted")
